@@ -1,6 +1,7 @@
 package adapt
 
 import (
+	"context"
 	"errors"
 	"fmt"
 	"runtime"
@@ -22,6 +23,9 @@ func ClassifyErr(err error) (string, string) {
 		return ClsOK, ""
 	}
 	msg := err.Error()
+	if errors.Is(err, context.Canceled) || errors.Is(err, context.DeadlineExceeded) {
+		return ClsCancelled, msg
+	}
 	if errors.Is(err, v1client.ErrForcedFailure) || errors.Is(err, v2client.ErrForcedFailure) {
 		return ClsForced, msg
 	}
